@@ -106,8 +106,8 @@ class IterPath:
 
 
 def iteration_paths(loop: ast.For, strand: int, carried: List[str], canon: Callable[[str], str], pre_env: Dict[str, object] = None,
-                    is_strand=None) -> List[IterPath]:
-    it = Interp(strand, canon=canon, record=(), is_strand=is_strand)
+                    is_strand=None, record=()) -> List[IterPath]:
+    it = Interp(strand, canon=canon, record=tuple(record), is_strand=is_strand)
     p = Path()
     p.env = dict(pre_env or {})
     syms = {}
